@@ -106,9 +106,13 @@ fn vals(v: &[u64]) -> Vec<u8> {
 
 /// assemble [header][root][metadata "{}"][leaves][64 data bytes] with the given raw directories
 pub fn assemble(c: u8, root_raw: &[u8], leaves_raw: &[Vec<u8>], patch: impl Fn(&mut SHeader, &[(u64, u64)])) -> Vec<u8> {
+    assemble_meta(c, root_raw, leaves_raw, b"{}", patch)
+}
+
+pub fn assemble_meta(c: u8, root_raw: &[u8], leaves_raw: &[Vec<u8>], meta_raw: &[u8], patch: impl Fn(&mut SHeader, &[(u64, u64)])) -> Vec<u8> {
     let p = codec::Params::default();
     let root = codec::compress(c, root_raw, p);
-    let meta = codec::compress(c, b"{}", p);
+    let meta = codec::compress(c, meta_raw, p);
     let mut leaf_sec = Vec::new();
     let mut places = Vec::new();
     for l in leaves_raw {
@@ -255,6 +259,26 @@ pub fn crafted_corpus() -> Vec<Crafted> {
         }
         for n in [10usize, 100, 1000, 3000, 6000, 9500, 100_000] {
             arch(&format!("leaf-chain-{n}"), chain_archive(c, n));
+        }
+        // ids that do not ascend / repeat, around leaf pointers (readers that derive a leaf's id span from its neighbours)
+        let leaf = tile.clone();
+        let with_leaf = |root: Vec<u8>| assemble(c, &root, &[leaf.clone()], |_, _| {});
+        // [pointer(id 0) -> leaf, tile entry with id delta 0]
+        arch("leaf-pointer-id0-then-same-id", with_leaf(vals(&[2, 0, 0, 0, 1, 30, 10, 1, 1])));
+        arch("leaf-pointer-then-same-id", with_leaf(vals(&[2, 5, 0, 0, 1, 30, 10, 1, 1])));
+        arch("two-leaf-pointers-same-id", with_leaf(vals(&[2, 0, 0, 0, 0, 30, 30, 1, 1])));
+        arch("tile-run-then-pointer-inside-run", with_leaf(vals(&[2, 7, 1, 3, 0, 10, 30, 1, 1])));
+        arch("pointer-last-id-u64max", with_leaf(vals(&[2, 0, u64::MAX, 0, 0, 30, 30, 1, 1])));
+        // metadata nested very deeply (a JSON parser without a depth limit recurses once per level)
+        for (nm, open, close) in [("array", "[", "]"), ("object", "{\"a\":", "}")] {
+            for depth in [200usize, 5_000, 300_000] {
+                let mut m = open.repeat(depth);
+                if depth < 10_000 {
+                    m.push('1');
+                    m.push_str(&close.repeat(depth));
+                }
+                arch(&format!("metadata-nested-{nm}-{depth}"), assemble_meta(c, &tile, &[], m.as_bytes(), |_, _| {}));
+            }
         }
         // root pointing into the root (pointer with leaf offset such that it lands on the root itself)
         arch("metadata-not-utf8", {
